@@ -162,7 +162,8 @@ def one_case(ctx, r, desc):
                             del b.lines[r.randrange(len(b.lines))]
                         else:
                             k = r.randrange(len(b.lines))
-                            b.lines[k] = w if b.lines[k] != w else w + "x"
+                            numeric = dict(b.attrs).get("keep-sorted-format") == "numeric"
+                            b.lines[k] = w if b.lines[k] != w else (str(float(w) + 1) if numeric else w + "x")
                         b.how = how
                 elif b.cls == TAGONLY:
                     bump_rev(b)
